@@ -432,11 +432,24 @@ def run_case(case, ctx):
     res, track = _run(case, ctx, None)
     if res["v"] != "held" or track is None or case["kind"] not in ("track", "tracks"):
         return res
-    for i in range(track.size()):
-        pos = track.getObs(i).position
-        pos.setX(pos.getX() + 3.0)
-        pos.setY(2.0 * pos.getY() - 1.0)
-    case2 = dict(case, X=list(track.getX()), Y=list(track.getY()))
+    if (len(case["X"]) + len(case["Q"])) % 2:
+        for i in range(track.size()):
+            pos = track.getObs(i).position
+            pos.setX(pos.getX() + 3.0)
+            pos.setY(2.0 * pos.getY() - 1.0)
+    else:
+        # the vertices are moved through references the caller obtained EARLIER (before the last projection), not
+        # through the track's accessors at the time of the move
+        from tracklib.core.obs_coords import ENUCoords as _E
+        from tracklib.algo.mapping import mapOnTrack as _map
+        refs = [o.position for o in track.getObsList()]
+        M.call(_map, _E(case["Q"][0][0], case["Q"][0][1], 0.0), track)
+        for pos in refs:
+            pos.setX(pos.getX() + 3.0)
+            pos.setY(2.0 * pos.getY() - 1.0)
+        ctx.count("reference_moved_through_earlier_references")
+    # where the vertices are now is computed from where they were, not read back through the track's accessors
+    case2 = dict(case, X=[x + 3.0 for x in case["X"]], Y=[2.0 * y - 1.0 for y in case["Y"]])
     q2 = None
     if case["kind"] == "tracks" and _LAST_OUT[0] is not None and len(case["Q"]) % 2 == 0:
         # derived object as the query: the track returned by the first mapping (it already carries the distance and
